@@ -56,7 +56,7 @@ func blackholeUp() (string, bool) {
 // ---- scripted server
 
 type c09step struct {
-	Op    string `json:"op"`           // read | send | sleep | close | rst | hold | flood
+	Op    string `json:"op"` // read | send | sleep | close | rst | hold | flood
 	Bytes []byte `json:"bytes,omitempty"`
 	Ms    int    `json:"ms,omitempty"`
 	N     int    `json:"n,omitempty"`
@@ -454,6 +454,22 @@ func TestVerifC09Faults(t *testing.T) {
 				}
 			}
 			switch {
+			case c.F.Want && res == nil && func() bool {
+				// an upper bound for the probe (it must get its answer inside its own timeouts): re-probe a fresh
+				// server with 4x and 16x the timeouts before judging; a wrong decision rule fails at every scale
+				for _, scale := range []int{4, 16} {
+					srv2 := newC09Server(func(string) []c09step { return c.F.Steps })
+					sc2 := socks5.NewScanner(socks5.WithDialTimeout(time.Duration(c.DialMs*scale)*time.Millisecond), socks5.WithDataTimeout(time.Duration(c.DataMs*scale)*time.Millisecond))
+					r2, _ := sc2.Scan(context.Background(), c09req(fmt.Sprintf("127.1.%d.%d", 1+i%200, 1+i%250), srv2.port))
+					srv2.close()
+					if r2 != nil {
+						run.Count("positive_cases_confirmed_on_retry", 1)
+						return true
+					}
+				}
+				return false
+			}():
+				// reported once the probe was given more time
 			case c.F.Want && res == nil:
 				run.Violation("faults:proxy-not-reported:"+c.F.Name, fmt.Sprintf("the first two bytes of the answer are 05 00 (%q) but nothing was reported (err %v)", c.F.Name, err), c)
 			case !c.F.Want && res != nil:
@@ -506,79 +522,94 @@ func TestVerifC09Wired(t *testing.T) {
 			hosts = append(hosts, h)
 			fmt.Fprintf(&file, "{\"ip\":\"%s\",\"port\":%d}\n", h.ip, h.srv.port)
 		}
-		tmo := []int{100, 200}[rng.Intn(2)]
-		run.Case(fmt.Sprintf("wired%03d", i), map[string]interface{}{"targets": file.String(), "timeout_ms": tmo})
-		o := &socksCmdOpts{timeout: time.Duration(tmo) * time.Millisecond}
-		o.ipFile = writeTemp(t.TempDir(), "targets.jsonl", file.String())
-		o.workers = 1 + rng.Intn(8)
-		o.json = true
-		if err := o.parseRawOptions(); err != nil {
-			run.Violation("wired:options", err.Error(), nil)
-			continue
-		}
-		out := &recOut{clock: &rigClock{}}
-		lg, _ := log.NewLogger(out, "socks", log.JSON())
-		rl := &recLogger{inner: lg, clock: &rigClock{}}
-		ctx, cancel := context.WithCancel(context.Background())
-		engine := o.newSOCKSScanEngine(ctx)
-		rng2, _ := o.parseScanRange(nil)
-		t0 := time.Now()
-		_, finished, _ := run.Watch(60*time.Second, "v-byte-cpu/sx/", func() {
-			_ = startScanEngine(ctx, engine, newEngineConfig(withLogger(rl), withScanRange(rng2), withExitDelay(300*time.Millisecond)))
-		})
-		dur := time.Since(t0)
-		cancel()
-		for _, h := range hosts {
-			h.srv.close()
-		}
-		run.Eval(1)
-		if !finished {
-			run.Inconclusive("socks engine did not finish")
-			continue
-		}
-		got := map[string]int{}
-		for _, w := range out.snapshot() {
-			var m struct {
-				IP   string `json:"ip"`
-				Port int    `json:"port"`
+		tmo0 := []int{100, 200}[rng.Intn(2)]
+		workers0 := 1 + rng.Intn(8)
+		run.Case(fmt.Sprintf("wired%03d", i), map[string]interface{}{"targets": file.String(), "timeout_ms": tmo0})
+		for attempt := 0; attempt < 3; attempt++ {
+			tmo := tmo0
+			for k := 0; k < attempt; k++ {
+				tmo *= 4 // a proxy that is not printed is re-judged with more time (upper bound for the probe)
 			}
-			if json.Unmarshal(w, &m) != nil {
-				run.Violation("wired:line", fmt.Sprintf("output line is not a JSON record: %.200q", w), nil)
+			missingProxy := false
+			o := &socksCmdOpts{timeout: time.Duration(tmo) * time.Millisecond}
+			o.ipFile = writeTemp(t.TempDir(), "targets.jsonl", file.String())
+			o.workers = workers0
+			o.json = true
+			if err := o.parseRawOptions(); err != nil {
+				run.Violation("wired:options", err.Error(), nil)
 				continue
 			}
-			got[fmt.Sprintf("%s:%d", m.IP, m.Port)]++
-		}
-		for _, h := range hosts {
-			k := fmt.Sprintf("%s:%d", h.ip, h.srv.port)
-			switch {
-			case h.want && got[k] != 1:
-				run.Violation("wired:proxy-lines", fmt.Sprintf("SOCKS5 server %s printed %d times (once expected)", k, got[k]), file.String())
-			case !h.want && got[k] != 0:
-				run.Violation("wired:false-proxy", fmt.Sprintf("%s is not a SOCKS5 server but was printed", k), file.String())
+			out := &recOut{clock: &rigClock{}}
+			lg, _ := log.NewLogger(out, "socks", log.JSON())
+			rl := &recLogger{inner: lg, clock: &rigClock{}}
+			ctx, cancel := context.WithCancel(context.Background())
+			engine := o.newSOCKSScanEngine(ctx)
+			rng2, _ := o.parseScanRange(nil)
+			t0 := time.Now()
+			_, finished, _ := run.Watch(60*time.Second, "v-byte-cpu/sx/", func() {
+				_ = startScanEngine(ctx, engine, newEngineConfig(withLogger(rl), withScanRange(rng2), withExitDelay(300*time.Millisecond)))
+			})
+			dur := time.Since(t0)
+			cancel()
+			run.Eval(1)
+			if !finished {
+				run.Inconclusive("socks engine did not finish")
+				break
 			}
-			delete(got, k)
-		}
-		for k := range got {
-			run.Violation("wired:foreign-record", fmt.Sprintf("record for %s, which was never probed", k), file.String())
-		}
-		// -t drives BOTH timeouts: seen from the server, a connection the client got stuck on must be
-		// given up within 3 data timeouts (one write, two reads) + slack
-		if stallW := rl; stallW != nil {
+			got := map[string]int{}
+			for _, w := range out.snapshot() {
+				var m struct {
+					IP   string `json:"ip"`
+					Port int    `json:"port"`
+				}
+				if json.Unmarshal(w, &m) != nil {
+					run.Violation("wired:line", fmt.Sprintf("output line is not a JSON record: %.200q", w), nil)
+					continue
+				}
+				got[fmt.Sprintf("%s:%d", m.IP, m.Port)]++
+			}
 			for _, h := range hosts {
-				h.srv.wg.Wait()
-				for _, cn := range h.srv.snapshot() {
-					life := cn.ended.Sub(cn.accepted)
-					if bound := 3*time.Duration(tmo)*time.Millisecond + time.Second; life > bound && !cn.ended.IsZero() {
-						run.Violation("wired:timeout-flag-not-applied", fmt.Sprintf("-t %d ms: the server at %s:%d saw the probe's connection stay open for %v (> 3 x %d ms + 1 s): the flag does not reach the data timeout", tmo, h.ip, h.srv.port, life, tmo), file.String())
+				k := fmt.Sprintf("%s:%d", h.ip, h.srv.port)
+				switch {
+				case h.want && got[k] == 0 && attempt < 2:
+					missingProxy = true
+				case h.want && got[k] != 1:
+					run.Violation("wired:proxy-lines", fmt.Sprintf("SOCKS5 server %s printed %d times (once expected)", k, got[k]), file.String())
+				case !h.want && got[k] != 0:
+					run.Violation("wired:false-proxy", fmt.Sprintf("%s is not a SOCKS5 server but was printed", k), file.String())
+				}
+				delete(got, k)
+			}
+			for k := range got {
+				run.Violation("wired:foreign-record", fmt.Sprintf("record for %s, which was never probed", k), file.String())
+			}
+			// -t drives BOTH timeouts: seen from the server, a connection the client got stuck on must be
+			// given up within 3 data timeouts (one write, two reads) + slack
+			if missingProxy {
+				run.Count("wired_runs_retried", 1)
+				continue
+			}
+			if stallW := rl; stallW != nil && attempt == 0 {
+				for _, h := range hosts {
+					h.srv.wg.Wait()
+					for _, cn := range h.srv.snapshot() {
+						life := cn.ended.Sub(cn.accepted)
+						if bound := 3*time.Duration(tmo)*time.Millisecond + time.Second; life > bound && !cn.ended.IsZero() {
+							run.Violation("wired:timeout-flag-not-applied", fmt.Sprintf("-t %d ms: the server at %s:%d saw the probe's connection stay open for %v (> 3 x %d ms + 1 s): the flag does not reach the data timeout", tmo, h.ip, h.srv.port, life, tmo), file.String())
+						}
+						run.Count("wired_connection_lifetimes_checked", 1)
 					}
-					run.Count("wired_connection_lifetimes_checked", 1)
 				}
 			}
+			// the slowest target costs at most t + 3t per probe, probes/workers rounds
+			rounds := (nh + o.workers - 1) / o.workers
+			if bound := time.Duration(rounds)*4*time.Duration(tmo)*time.Millisecond + 300*time.Millisecond + 3*time.Second; dur > bound {
+				run.Violation("wired:time-bound", fmt.Sprintf("scan of %d targets with -t %d ms and %d workers took %v (> %v)", nh, tmo, o.workers, dur, bound), file.String())
+			}
+			break
 		}
-		// the slowest target costs at most t + 3t per probe, probes/workers rounds
-		rounds := (nh + o.workers - 1) / o.workers
-		if bound := time.Duration(rounds)*4*time.Duration(tmo)*time.Millisecond + 300*time.Millisecond + 3*time.Second; dur > bound {
-			run.Violation("wired:time-bound", fmt.Sprintf("scan of %d targets with -t %d ms and %d workers took %v (> %v)", nh, tmo, o.workers, dur, bound), file.String())
+		for _, h := range hosts {
+			h.srv.close()
 		}
 		run.Count("wired_runs", 1)
 		run.Count("wired_targets", int64(nh))
